@@ -150,9 +150,11 @@ func determineBlockEncryption(
 	}
 
 	// A field that is written for the first time by an update has no previous block of its own
-	// to take the encryption from. If the whole document is encrypted, the heads of the document
-	// itself (composite) link to the document-level key, which covers every field of the document.
-	if len(heads) == 0 && fieldName.HasValue() && docID != "" {
+	// to take the encryption from, and the only previous blocks of a field may be clear ones merged
+	// from a node that does not hold the key. If the whole document is encrypted, the heads of the
+	// document itself (composite) link to the document-level key, which covers every field of the
+	// document.
+	if fieldName.HasValue() && docID != "" {
 		docHeadset := NewHeadSet(txn.Headstore(), keys.HeadstoreDocKey{
 			DocID:   docID,
 			FieldID: core.COMPOSITE_NAMESPACE,
